@@ -4,11 +4,11 @@ argument uses about the result of `substitute`), and the classification of imple
 namespace KV.Transform
 open KV
 
-/-- everything the semantic argument uses about `h' = substitute h c m` in regular use; `map` = `node_map` -/
-structure SubstCert (h : NNet) (c : Nat) (m : NNet) (sh : Shape) (dn : Nat) (map : Array (Option Nat)) (h' : NNet) : Prop where
+/-- everything the semantic argument uses about `h' = substitute h c m` in regular use, except the well-formedness of
+    the result; `map` = `node_map` -/
+structure SubstPre (h : NNet) (c : Nat) (m : NNet) (sh : Shape) (dn : Nat) (map : Array (Option Nat)) (h' : NNet) : Prop where
   hwf : WF h
   mwf : WF m
-  wf' : WF h'
   hc : c < h.net.nodes.size
   hio : c ∉ h.net.io
   shape : implShape m = some sh
@@ -49,6 +49,11 @@ structure SubstCert (h : NNet) (c : Nat) (m : NNet) (sh : Shape) (dn : Nat) (map
     outTarget m map il = some (d, dp) ∧ (h'.net.line ll).driver = d ∧ (h'.net.line ll).dpin = dp
   newLine : ∀ t (ht : t < (copiedLines m map).length),
     h'.net.line (h.net.lines.size + t) = mkLine m map (copiedLines m map)[t]
+
+/-- … with the well-formedness of the result -/
+structure SubstCert (h : NNet) (c : Nat) (m : NNet) (sh : Shape) (dn : Nat) (map : Array (Option Nat)) (h' : NNet) : Prop
+    extends SubstPre h c m sh dn map h' where
+  wf' : WF h'
 
 /-! ### `inTarget` / `outTarget` by cases -/
 theorem inTarget_cases {m : NNet} {map : Array (Option Nat)} {inn r rp : Nat} (h : inTarget m map inn = some (r, rp)) :
